@@ -25,7 +25,7 @@ EXPLANATION = (
 ASSUMPTIONS = [
     "the request is an object exposing .method and .rel_url.path_safe (all that Resource.resolve reads); path_safe is the symbolic string itself (yarl's decoding is third-party code)",
     "url_for/resolve inverse and normalize_path_middleware redirects are decided on concrete strings chosen by the solver from a fixed alphabet (quoting and URL parsing live in yarl, third-party code that cannot take symbolic text): 27 parameter values x 5 templates; request targets of 1-3 (quick) / 1-4 pieces out of 14 (//, /\\, %2F, %5C, dot segments, evil.com ...) through a real server connection with 4 middleware configurations",
-    "domain sub-applications (MatchedSubAppResource) are not in the table grammar",
+    "domain sub-applications are decided on four concrete table shapes (one domain, the same domain twice, a mask before an exact name, a domain inside a prefix-mounted sub-application) x 9 Host values (incl. names that only start or end like a registered one) x 6 paths x 2 methods; Host values are lower-case without a port",
 ]
 TRUSTED = ["refs/ref_router.py as a reading of docs/web_reference.rst 'Resource'", "symx regex model (used by both sides for the template regexes)"]
 
@@ -258,6 +258,103 @@ def url_for_inverse(ctx):
         return False, "inv:urlfor", info
     return True, "urlfor:ok", None
 
+def domain_subapps(ctx):
+    """Domain-matched sub-applications (alone, two in registration order, and inside a prefix-mounted
+    sub-application): a request whose Host matches the first registered matching domain is resolved
+    by that sub-application alone (its 404 / 405 is final); every other request by the main table."""
+    import fnmatch
+
+    from aiohttp import web
+    from aiohttp.test_utils import make_mocked_request
+
+    from harness.vloop import VLoop, install
+
+    install(VLoop())
+    shape = ctx.pick("shape", ["one-domain", "two-domains", "mask-then-exact", "domain-inside-prefix-subapp"])
+
+    def mk(tag):
+        async def h(request):
+            return web.Response(text=tag)
+        h.tag = tag
+        return h
+
+    def sub(tag, routes):
+        a = web.Application()
+        for m, p in routes:
+            a.router.add_route(m, p, mk(f"{tag}:{m}:{p}"))
+        return a
+
+    main = web.Application()
+    main.router.add_route("GET", "/x", mk("main:GET:/x"))
+    main.router.add_route("GET", "/only-main", mk("main:GET:/only-main"))
+    doms = []  # (pattern, tag, routes) in registration order
+    info = {"shape": shape}
+    try:
+        if shape == "one-domain":
+            doms = [("a.com", "A", [("POST", "/x"), ("GET", "/y")])]
+        elif shape == "two-domains":
+            doms = [("a.com", "A", [("GET", "/x")]), ("a.com", "A2", [("GET", "/x"), ("GET", "/y")])]
+        elif shape == "mask-then-exact":
+            doms = [("*.b.com", "M", [("GET", "/{v}")]), ("x.b.com", "X", [("GET", "/x")])]
+        if shape == "domain-inside-prefix-subapp":
+            inner = sub("I", [("GET", "/i")])
+            mid = web.Application()
+            mid.add_domain("a.com", inner)
+            mid.router.add_route("GET", "/m", mk("mid:GET:/m"))
+            main.add_subapp("/api", mid)
+        else:
+            for pat, tag, routes in doms:
+                main.add_domain(pat, sub(tag, routes))
+    except Exception as e:  # noqa: BLE001
+        info["key"] = f"route-table-cannot-be-built:{type(e).__name__}:{shape}"
+        info["detail"] = str(e)[:200]
+        return False, "inv:domain", info
+    host = ctx.pick("host", ["a.com", "x.b.com", "b.com", "c.com", None, "x.b.com.evil.org", "x.b.com:8080", "a.com.evil.org",
+                             "evil.a.com"])
+    path = ctx.pick("path", ["/x", "/y", "/only-main", "/api/i", "/api/m", "/i"])
+    method = ctx.pick("method", ["GET", "POST"])
+    req = make_mocked_request(method, path, headers={} if host is None else {"Host": host}, app=main)
+    mi = _run(main.router.resolve(req))
+    if mi.http_exception is not None:
+        got = str(mi.http_exception.status)
+    else:
+        got = getattr(mi.handler, "tag", "?")
+    # ---- the documented rule
+    def table(routes, tag):
+        ms = {m for m, p in routes if _m(p, path)}
+        for m, p in routes:
+            if _m(p, path) and m == method:
+                return f"{tag}:{m}:{p}"
+        return "405" if ms else "404"
+
+    def _m(pattern, pth):
+        if "{" in pattern:
+            return pth.count("/") == 1 and len(pth) > 1
+        return pattern == pth
+
+    want = None
+    if shape != "domain-inside-prefix-subapp":
+        for pat, tag, routes in doms:
+            if host is not None and fnmatch.fnmatchcase(host, pat):
+                want = table(routes, tag)
+                break
+        if want is None:
+            want = table([("GET", "/x"), ("GET", "/only-main")], "main")
+    else:
+        if path.startswith("/api/") or path == "/api":
+            # the prefix belongs to the mounted application; inside it the domain rule comes first
+            if host == "a.com":
+                want = "I:GET:/i" if (path == "/api/i" and method == "GET") else ("405" if path == "/api/i" else "404")
+            else:
+                want = "mid:GET:/m" if (path == "/api/m" and method == "GET") else ("405" if path == "/api/m" else "404")
+        else:
+            want = table([("GET", "/x"), ("GET", "/only-main")], "main")
+    info.update(host=host, path=path, method=method, got=got, want=want)
+    if got != want:
+        info["key"] = f"domain-dispatch-differs:{shape}"
+        return False, "inv:domain", info
+    return True, "domain:" + ("err" if got in ("404", "405") else "ok"), None
+
 
 def twin(ctx):
     f, tag, info = table_check(ctx, table=[("/a", ["GET"]), ("/{v}", ["POST"])], n=2)
@@ -295,6 +392,7 @@ def jobs(tier):
         out.append(dict(name=f"redirect-{REDIRECT_PIECES.index(pc)}", func="normalize_redirect",
                         params=dict(npieces=3 if quick else 4, first=pc), limits=lim))
     out.append(dict(name="url-for", func="url_for_inverse", params={}, limits=lim))
+    out.append(dict(name="domain-subapps", func="domain_subapps", params={}, limits=lim))
     return out
 
 
